@@ -68,7 +68,7 @@ def seed_stats():
         if not c.get("caught_by_registered_check"):
             w[wave][2] += 1
     parts = []
-    for i, name in ((1, "first"), (2, "second"), (3, "third (six properties)"), (4, "fourth (eleven other properties, two changes each)")):
+    for i, name in ((1, "first"), (2, "second"), (3, "third (six properties)"), (4, "fourth (fifteen properties, one or two changes each)")):
         parts.append("%s wave %d changes, %d caught by the check as it stood, %d caught after strengthening, %d not caught by the property's own check" % (
             name, w[i][0], w[i][0] - w[i][1] - w[i][2], w[i][1], w[i][2]))
     return "Counts (generated from `seeded/*/meta.json`): " + "; ".join(parts) + "."
